@@ -55,6 +55,10 @@ func FromTagged(v any) any {
 		return ErrValue{}
 	case "any":
 		return AnyValue{}
+	case "alien":
+		// something that is not plain data (encoded by ToTagged); equal to nothing
+		why, _ := m["why"].(string)
+		return AlienValue{Why: why}
 	case "enc", "hash":
 		// uninterpreted texts of Builtins.tla: only their laws are fixed
 		b, _ := json.Marshal(m)
@@ -69,6 +73,34 @@ func FromTagged(v any) any {
 
 // ErrValue is the decoded form of the specification's Err.
 type ErrValue struct{}
+
+// AlienValue stands for a real value that is not plain JSON-like data.
+type AlienValue struct{ Why string }
+
+// StripMarkers removes the engine's temporary "<-" keys from a tagged value (they are
+// legitimately present in rows between two stages of a query that evaluates subqueries).
+func StripMarkers(v any) any {
+	switch x := v.(type) {
+	case []any:
+		out := make([]any, len(x))
+		for i, e := range x {
+			out[i] = StripMarkers(e)
+		}
+		return out
+	case map[string]any:
+		out := make(map[string]any, len(x))
+		for k, e := range x {
+			if k == "<-" {
+				if n, ok := e.(map[string]any); ok && n["t"] == "alien" {
+					continue
+				}
+			}
+			out[k] = StripMarkers(e)
+		}
+		return out
+	}
+	return v
+}
 
 // AnyValue is the decoded form of the specification's Unspec: a result the properties
 // leave open (the checks then only demand that no panic escapes).
